@@ -271,7 +271,7 @@ srv_harness! { #[kani::unwind(4)] fn c15_policy_v3() { let r = policy_plain(0x1B
 srv_harness! { #[kani::unwind(4)] fn c15_policy_v4_mac() { let r = policy_plain(0xE3, 52, 0, 0, 0); covers_policy(&r); } }
 srv_harness! { #[kani::unwind(4)] fn c15_policy_v3_mac() { let r = policy_plain(0x5B, 52, 0, 0, 0); covers_policy(&r); } }
 srv_harness! { #[kani::unwind(4)] fn c15_policy_v6() { let r = policy_plain(0xA3, 48, 0, 1, 2); covers_policy(&r); covers_v6(&r); } }
-srv_harness! { #[kani::unwind(4)] fn c15_policy_ratelimit() { let r = policy_plain(0x23, 48, 1, 0, 2); covers_policy(&r); covers_cache(&r); } }
+srv_harness! { #[kani::unwind(17)] #[kani::stub(<std::hash::DefaultHasher as std::hash::Hasher>::finish, crate::common::hasher_finish_model)] fn c15_policy_ratelimit() { let r = policy_plain(0x23, 48, 1, 0, 2); covers_policy(&r); covers_cache(&r); } }
 
 /// Datagrams that must be ignored whatever the policy: every (first byte, length) pair of the
 /// list is tried with symbolic contents against the same symbolic policy (cache size 0).
@@ -360,5 +360,164 @@ srv_harness! {
         }
         kani::cover!(!s.cfg.in_deny(s.client) && s.cfg.in_allow(s.client) && s.cfg.n_versions == 3 && msg[0] == 0x23, "allowed client, client mode, accepted version: short datagram ignored");
         std::mem::forget(s);
+    }
+}
+
+// ---------------------------------------------------------------------------------------------
+// NTS requests whose encrypted field does not authenticate (DESIGN section 3, C15).
+//
+// Layout templates (constant field type/length words, symbolic contents):
+//   A (80 bytes, v4):  header | NTS-encrypted EF (0x0404, 32 bytes: nonce len 16, ct len 8, 24 bytes)
+//        no cookie field at all => the key set yields no cipher => "does not decrypt"
+//   B (120 bytes, v4): header | NTS cookie EF (0x0204, 40 bytes: 36-byte cookie) | NTS-encrypted EF (32 bytes)
+//        cookie bytes arbitrary: key id unknown, or the cookie ciphertext does not authenticate
+//        (AES-SIV modelled: garbage never authenticates)
+//   C (108 bytes, v5): header | draft identification EF (28 bytes) | encrypted EF (32 bytes)
+// The property: such a request never receives time; from an allowed client in client mode with
+// an accepted version it receives the NTS NAK; non-client-mode datagrams are never answered.
+
+pub const DRAFT: &[u8; 23] = b"draft-ietf-ntp-ntpv5-09";
+
+/// Build the template into `msg` (first byte `b0`); returns the length.
+#[cfg(kani)]
+pub fn nts_template(msg: &mut [u8; 160], layout: u8, b0: u8) -> usize {
+    msg[0] = b0;
+    let len = match layout {
+        0 => {
+            put_ef_header(msg, 48, 0x0404, 32);
+            80
+        }
+        1 => {
+            put_ef_header(msg, 48, 0x0204, 40);
+            put_ef_header(msg, 88, 0x0404, 32);
+            120
+        }
+        _ => {
+            // v5 header words that must be well-formed: timescale, flags
+            msg[12] = 0;
+            msg[14] = 0;
+            msg[15] = 0;
+            put_ef_header(msg, 48, 0xF5FF, 27);
+            let mut i = 0;
+            while i < 23 {
+                msg[52 + i] = DRAFT[i];
+                i += 1;
+            }
+            put_ef_header(msg, 76, 0x0404, 32);
+            108
+        }
+    };
+    // encrypted field: nonce length 16, ciphertext length 8 (24 bytes of symbolic nonce||ciphertext)
+    let enc = len - 32;
+    msg[enc + 4] = 0;
+    msg[enc + 5] = 16;
+    msg[enc + 6] = 0;
+    msg[enc + 7] = 8;
+    len
+}
+
+/// End-to-end (`Server::handle`, daemon call shape) with a concrete policy class; a symbolic
+/// policy on this path does not finish symbolic execution (three response constructions over
+/// non-empty extension-field vectors: > 9 min, > 5 GB). `expect`: None = must be ignored.
+#[cfg(kani)]
+fn nts_undecryptable(layout: u8, b0: u8, class: crate::c16::Class, versions: [NtpVersion; 3], expect: Option<Kind>) {
+    stubs::symbolic_rng();
+    let mut msg: [u8; 160] = kani::any();
+    let len = nts_template(&mut msg, layout, b0);
+    let vn = (b0 >> 3) & 7;
+    let info = any_server_info();
+    let now: u64 = kani::any();
+    let recv: u64 = kani::any();
+    // accepted versions: a single entry (keeps every loop on this path within a small unwind bound)
+    let mut cfg = crate::c16::class_cfg(class, versions);
+    cfg.n_versions = 1;
+    let mut server = build_server(&cfg, SymClock { now: tt::ts_from_raw(now) }, info, zero_keyset());
+    let mut stats = RecStats::new();
+    let mut send_buf = [0u8; 160];
+    let act = server.handle(IpAddr::V4(Ipv4Addr::new(192, 0, 2, 1)), tt::ts_from_raw(recv), &msg[..len], &mut send_buf[..len], &mut stats);
+    let out = outcome(&act);
+    check_stats!(stats, out);
+    assert!(out.kind != Some(Kind::Time), "C15: a request whose NTS field does not authenticate never receives time");
+    assert!(out.kind == expect, "C15: NAK for an allowed client, DENY for a denied one, nothing for a non-accepted version");
+    assert!(stats.version == vn, "C21: recorded version");
+    match expect {
+        Some(Kind::NakKiss) => {
+            assert!(stats.nts && stats.reason == ServerReason::InvalidCrypto && stats.response == ServerResponse::NTSNak, "C21: NAK recorded as NTS / invalid crypto");
+            assert!(out.resp_len <= len && out.resp_version == vn, "C16: NAK not longer than the request");
+        }
+        Some(_) => {
+            assert!(!stats.nts && stats.reason == ServerReason::Policy && stats.response == ServerResponse::Deny, "C21: DENY recorded as policy (the cookie never decoded: not counted as NTS)");
+            assert!(out.resp_len <= len, "C16: DENY not longer than the request");
+        }
+        None => assert!(stats.reason == ServerReason::Policy && stats.response == ServerResponse::Ignore, "C21: ignored by policy"),
+    }
+    kani::cover!(out.kind == expect, "as prescribed");
+    std::mem::forget(server);
+}
+
+const V345: [NtpVersion; 3] = [NtpVersion::V4, NtpVersion::V4, NtpVersion::V4];
+const V3_ONLY: [NtpVersion; 3] = [NtpVersion::V3, NtpVersion::V3, NtpVersion::V3];
+
+srv_harness! { #[kani::unwind(2)] fn c15_nts_nocookie_nak() { nts_undecryptable(0, 0x23, crate::c16::Class::Time, V345, Some(Kind::NakKiss)); } }
+srv_harness! { #[kani::unwind(2)] fn c15_nts_nocookie_deny() { nts_undecryptable(0, 0x23, crate::c16::Class::DenyList, V345, Some(Kind::DenyKiss)); } }
+srv_harness! { #[kani::unwind(2)] fn c15_nts_nocookie_required() { nts_undecryptable(0, 0x23, crate::c16::Class::DenyNts, V345, Some(Kind::NakKiss)); } }
+srv_harness! { #[kani::unwind(2)] fn c15_nts_nocookie_version() { nts_undecryptable(0, 0x23, crate::c16::Class::Time, V3_ONLY, None); } }
+srv_harness! {
+    #[kani::unwind(3)]
+    fn c15_nts_badcookie_nak() {
+        nts_undecryptable(1, 0x23, crate::c16::Class::Time, V345, Some(Kind::NakKiss));
+        kani::cover!(decrypt_calls() == 1, "cookie with a known key id reached the (modelled) cipher");
+        kani::cover!(decrypt_calls() == 0, "cookie with an unknown key id");
+    }
+}
+srv_harness! { #[kani::unwind(25)] fn c15_nts_v5_nak() { nts_undecryptable(2, 0x2B, crate::c16::Class::Time, V345, Some(Kind::NakKiss)); } }
+
+/// `sym_header`: bytes 1..48 symbolic; otherwise the whole datagram is concrete (zeros).
+#[cfg(kani)]
+fn nts_nonclient(sym_header: bool, b0: u8) -> Outcome {
+    let mut msg = [0u8; 160];
+    if sym_header {
+        let h: [u8; 48] = kani::any();
+        let mut i = 1;
+        while i < 48 {
+            msg[i] = h[i];
+            i += 1;
+        }
+    }
+    let len = nts_template(&mut msg, 0, b0);
+    let info = server_info(2, [127, 0, 0, 1], NtpDuration::from_exponent(-18), NtpDuration::ZERO, NtpLeapIndicator::NoWarning, tt::ts_from_raw(0));
+    // accepted versions = {V4}, everybody allowed, NTS not required, no rate limiting
+    let mut cfg = crate::c16::class_cfg(crate::c16::Class::Time, [NtpVersion::V4; 3]);
+    cfg.n_versions = 1;
+    let mut server = build_server(&cfg, SymClock { now: tt::ts_from_raw(0x1234_5678_0000_0000) }, info, zero_keyset());
+    let mut stats = RecStats::new();
+    let mut send_buf = [0u8; 160];
+    let act = server.handle(IpAddr::V4(Ipv4Addr::new(192, 0, 2, 1)), tt::ts_from_raw(0x1234_5677_0000_0000), &msg[..len], &mut send_buf[..len], &mut stats);
+    let out = outcome(&act);
+    std::mem::forget(server);
+    out
+}
+
+srv_harness! {
+    #[kani::unwind(2)]
+    fn c15_nts_kf_nonclient_nak() {
+        // EXPECTED TO FAIL on the unchanged tree (DESIGN section 5): layout A (80 bytes: NTPv4
+        // header in SERVER mode (4) + NTS-encrypted field, no cookie) from an allowed client.
+        // `handle_inner` checks the mode only on the Ok branch of deserialize, so a non-client
+        // datagram whose NTS field does not decrypt is answered with an NTS NAK. Concrete
+        // witness (all other bytes zero), end-to-end through `Server::handle` in the daemon's call
+        // shape, so that the native replay shows the datagram that is sent.
+        let out = nts_nonclient(false, 0x24);
+        assert!(out.kind.is_none(), "C15: a datagram that is not in client mode is never answered");
+    }
+}
+
+srv_harness! {
+    #[kani::unwind(2)]
+    fn c15_nts_client_nak() {
+        // the same datagram in client mode (3): answered with the NTS NAK, never with time
+        let out = nts_nonclient(false, 0x23);
+        assert!(out.kind == Some(Kind::NakKiss) && out.resp_len == 48, "C15: undecryptable NTS request from an allowed client gets the NAK");
+        kani::cover!(out.kind == Some(Kind::NakKiss), "NAK sent");
     }
 }
